@@ -14,7 +14,7 @@ import TacklerModel.Model.Types
 | `metadata`                | `PriceLookupCtx::metadata`                                                |
 
 The model is of the tree *with* the fix proposals `fixes/F10-never-convert-report-commodity.diff`
-(the report commodity is left out of `used_commodities`) and `fixes/F18-last-price-unbounded.diff`
+(the report commodity is left out of `used_commodities`) and `fixes/F19-last-price-unbounded.diff`
 (`LastPriceDbEntry` has no upper bound instead of the exclusive bound `Timestamp::MAX`).
 The instant of an entry is nanoseconds since the epoch; the zone it was written with is display only.
 Decimal multiplication outside the exact domain (`Dec.mul = none`: `rust_decimal` rounds or panics)
@@ -99,7 +99,7 @@ def Ctx.default : Ctx := ⟨.fixed [], none⟩
 def usedCommodities (txns : List Txn) (tgt : String) : List String :=
   btreeSet (((txns.flatMap (·.posts)).map (·.comm)).filter (fun c => c != tgt))
 
-/-- the time condition of the fixed cache: `e.timestamp < lookup_timestamp`; none for last-price (F18 fix) -/
+/-- the time condition of the fixed cache: `e.timestamp < lookup_timestamp`; none for last-price (F19 fix) -/
 def beforeBound (bound : Option Int) (ns : Int) : Bool :=
   match bound with
   | some b => decide (ns < b)
